@@ -6,4 +6,4 @@ mkdir -p coq/Gen coq/Cases evidence replays
 for g in gen/gen_*.py; do PYTHONPATH=/repo PYTHONHASHSEED=0 TERM=xterm-256color /venv/bin/python "$g"; done
 sh harness/mkproject.sh
 cd coq
-timeout 7200 make -j16 2>&1 | tail -40
+timeout 7200 make -k -j16 2>&1 | tail -40
